@@ -108,6 +108,7 @@ pub open spec fn re_ok(e: RE) -> bool
 {
     &&& e.nullable == lang_k(e.expr, eps())
     &&& cp_wf(*e.deriv_class)
+    &&& uniform_k(e.expr, e.deriv_class.list@)
     &&& match e.expr {
         BaseRegLan::Empty => true,
         BaseRegLan::Epsilon => true,
